@@ -620,3 +620,56 @@ def tr_maybe_bind(ctx, bound, ready):
         # the server is not bound (never was, or was unbound by a failed accept / socket error): it must be bound again once the retry time is over
         ctx.prove(Or(ro, Not(due)), 'C14:O14.7.bind.unbound-server-is-bound-again-when-due', info='server bound: %s, transport ready flag: %s' % (bound, ready))
         ctx.prove(outcome == 'ok', 'C14:O14.7.bind.no-attempt-no-error')
+
+
+# ------------------------------------------------------------------------------------------------ TCPTransport.__init__ establishes what the units assume
+@unit(name='transport.init', relpath=TRMOD, qual=['%s.__init__' % CLS, 'Transport.__init__'], props=['C14', 'C18'], cases=[dict(readonly=False), dict(readonly=True)],
+      doc='the constructor establishes the state the other transport units start from: no connections to unknown peers, no observers, counter 0, '
+          'not ready and a server object (not yet bound) exactly on a node with an own address, ready at once and no server on a read-only node; '
+          'every given partner is added through addNode (so it is known by address and, where this side dials, has a connection object); the '
+          'tick callback is registered with the SyncObj')
+def tr_init(ctx, readonly):
+    tmod = source.load(TRMOD)
+    fn, ci = tmod.find('%s.__init__' % CLS)
+    tr = ctx.alloc(PObj(CLS, {}))
+    ticks, added, servers = [], [], []
+    so = ctx.alloc(PObj('SyncObj', {'encryptor': None}))
+    members = [NodeV(0), NodeV(1)]
+    reg = dict(REG)
+    reg.update({'SyncObj.addOnTickCallback': lambda I, s, a, k: ticks.append(a[0]),
+                '%s.addNode' % CLS: lambda I, s, a, k: added.append(a[0]),
+                '%s._createServer' % CLS: lambda I, s, a, k: (servers.append(1), ctx.setcell(s, ctx.cell(s).with_field('_server', ctx.alloc(PObj('TcpServer', {'_TcpServer__state': (0,)})))))[0]})
+    ext = {'functools.partial': partial_ext, 'threading.Event': lambda I, a, k: ctx.alloc(PObj('Event', {}))}
+    I = Interp(ctx, registry=reg, externals=ext, inline=set(INL) | {'Transport.__init__'},
+               hooks={'call:cb': cb_hook, 'transport': tr, 'modules': [TRMOD], 'bases': {CLS: ('Transport',)}})
+    I.cur_mod = tmod
+    ctx.universe = 3
+    selfnode = None if readonly else NodeV(2)
+    try:
+        I.call_funcdef(fn, tmod, CLS, tr, [so, selfnode, ctx.alloc(PList(members))], {}, None, '%s.__init__' % CLS)
+        outcome = 'ok'
+    except PyExc as e:
+        outcome = e.typ
+    ctx.prove(outcome == 'ok', 'C14:init.transport.no-exception', info=outcome)
+    if outcome != 'ok':
+        return
+    f = ctx.cell(tr).fields
+
+    def empty(n):
+        v = f.get(n)
+        c = ctx.cell(v) if isinstance(v, Ref) else v
+        if isinstance(c, NSet):
+            return not any(b is not False for b in c.bits)
+        return c is not None and len(getattr(c, 'entries', None) or getattr(c, 'items', None) or []) == 0
+    ctx.prove(all(empty(n) for n in ('_connections', '_unknownConnections', '_readonlyNodes', '_nodeAddrToNode', '_lastConnectAttempt', '_preventConnectNodes', '_nodes')),
+              'C14+C18:init.transport.starts-without-peers-connections-or-observers', info=repr([n for n in ('_connections', '_unknownConnections', '_readonlyNodes', '_nodeAddrToNode') if not empty(n)]))
+    ctx.prove(f.get('_readonlyNodesCounter') == 0, 'C18+C14:init.transport.observer-counter-starts-at-zero')
+    ctx.prove(f.get('_selfIsReadonlyNode') is readonly and f.get('_selfNode') is selfnode, 'C14+C18:init.transport.read-only-iff-no-own-address')
+    ctx.prove([getattr(a, 'idx', None) for a in added] == [0, 1], 'C14:init.transport.every-partner-added-through-addNode', info=repr(added))
+    ctx.prove(len(ticks) == 1, 'C14:init.transport.tick-callback-registered-once')
+    if readonly:
+        ctx.prove(f.get('_ready') is True and f.get('_server') is None and not servers, 'C14+C18:init.transport.read-only-node-is-ready-and-has-no-server')
+    else:
+        ctx.prove(f.get('_ready') is False and len(servers) == 1 and f.get('_server') is not None, 'C14:init.transport.member-has-a-server-and-is-not-ready-before-binding')
+    for n in ('_onMessageReceivedCallback', '_onNodeConnectedCallback', '_onNodeDisconnectedCallback', '_onReadonlyNodeConnectedCallback', '_onReadonlyNodeDisconnectedCallback'):
+        ctx.prove(n in f and f[n] is None, 'C14:init.transport.no-callbacks-until-set', info=n)
